@@ -6,6 +6,7 @@ import json
 from vlib import *
 import pyed
 
+THOROUGH_ROUNDS = 25      # repetitions of the conformance part in the thorough tier (fresh random draws each)
 TYPES = ["scalar", "ed", "ced", "ris", "cris", "mont", "sk", "vk", "sig", "xpub", "xstatic"]
 
 
